@@ -47,10 +47,11 @@ def main() -> int:
             if not ok and not limit:
                 missed.append(d.name)
         else:
-            own = "; ".join(x.split(" ", 1)[0] + " " + x.split(" ", 1)[1][:70] for x in fired.get(want, [])[:2]) or "**MISSED**"
+            kmiss = meta.get("known_miss")
+            own = "; ".join(x.split(" ", 1)[0] + " " + x.split(" ", 1)[1][:70] for x in fired.get(want, [])[:2]) or (f"**DOCUMENTED MISS** -- {kmiss}" if kmiss else "**MISSED**")
             others = ", ".join(sorted(k for k in fired if k != want))
             lines.append(f"| {d.name} | {want} | {files} | {own} | {others} |")
-            if want not in fired:
+            if want not in fired and not kmiss:
                 missed.append(d.name)
     (VERIF / "seeded" / "INDEX.md").write_text("\n".join(lines + twins) + "\n")
     print(f"{len(res)} changes indexed; problems: {missed}")
